@@ -410,6 +410,92 @@ def real_oracle(seed=0, n=40):
     return False, None, None
 
 
+def h_psfmap(wh):
+    """the real get_psf_sky2sky with a psf map of symbolic shape (planes, NX, NY): the map pixel looked up is the one the psf
+    map's own WCS gives for the position, clamped to the map on EACH axis with that axis' length"""
+    def h(c):
+        NX, NY = core.integer('NX'), core.integer('NY')
+        for v in (NX, NY):
+            c.assume(v.e >= 1)
+            c.assume(v.e <= 4096)
+        px, py = real('mx'), real('my')
+
+        class Map:
+            shape = (3, NX, NY)
+            asked = []
+
+            def __getitem__(self, key):
+                Map.asked.append(key)
+                return ('psf', key)
+        Map.asked = []
+        hp_ = wh.WCSHelper.__new__(wh.WCSHelper)
+        hp_.psf_file = 'psf.fits'
+        hp_._psf_map = Map()
+        hp_._psf_wcs = object()
+        hp_.psf_sky2pix = lambda pos: [px, py]
+        out = hp_.get_psf_sky2sky(real('ra'), real('dec'))
+        ok = len(Map.asked) == 1 and isinstance(Map.asked[0], tuple) and len(Map.asked[0]) == 3
+        c.oblige('psf map:one look-up [planes, x, y]', z3.BoolVal(ok))
+        if not ok:
+            return dict()
+        _, ix, iy = Map.asked[0]
+        L = core.lift
+        c.oblige('psf map:index within the map on each axis', z3.And(L(ix) >= 0, L(ix) <= NX.e - 1, L(iy) >= 0, L(iy) <= NY.e - 1))
+        inside = z3.And(px.e >= 0, px.e <= NX.e - 1, py.e >= 0, py.e <= NY.e - 1)
+        c.oblige('psf map:a position inside the map is looked up at its own pixel', z3.And(L(ix) <= px.e, px.e < L(ix) + 1, L(iy) <= py.e, py.e < L(iy) + 1), assume=[inside])
+        return dict()
+    return h
+
+
+def psfmap_oracle():
+    """real helper with non-square psf maps (wide and tall): the psf returned for a position is the one stored at the map pixel
+    that the map's own FITS WCS assigns to it"""
+    import os
+    import shutil
+    import tempfile
+    from astropy.io import fits
+    from astropy.wcs import WCS
+    wh = loader.real('wcs_helpers')
+    d = tempfile.mkdtemp(prefix='c16p_', dir='/var/tmp')
+    try:
+        hdr = fits.Header()
+        hdr['NAXIS'] = 2
+        hdr['NAXIS1'], hdr['NAXIS2'] = 300, 300
+        hdr['CTYPE1'], hdr['CTYPE2'] = 'RA---SIN', 'DEC--SIN'
+        hdr['CRVAL1'], hdr['CRVAL2'] = 50.0, -30.0
+        hdr['CRPIX1'] = hdr['CRPIX2'] = 150.0
+        hdr['CDELT1'], hdr['CDELT2'] = -0.01, 0.01
+        hdr['BMAJ'] = hdr['BMIN'] = 0.03
+        hdr['BPA'] = 0.0
+        for (n2, n1) in ((10, 30), (30, 10)):
+            ph = fits.Header()
+            ph['CTYPE1'], ph['CTYPE2'] = 'RA---SIN', 'DEC--SIN'
+            ph['CRVAL1'], ph['CRVAL2'] = 50.0, -30.0
+            ph['CRPIX1'], ph['CRPIX2'] = n1 / 2.0, n2 / 2.0
+            ph['CDELT1'], ph['CDELT2'] = -3.0 / n1, 3.0 / n2
+            jj, ii = real_np.meshgrid(real_np.arange(n1), real_np.arange(n2))
+            cube = real_np.array([0.03 + 1e-4 * ii + 1e-6 * jj, 0.02 + 1e-4 * ii + 1e-6 * jj, 0.0 * ii])
+            pf = os.path.join(d, 'psf_%d_%d.fits' % (n2, n1))
+            fits.PrimaryHDU(cube, header=ph).writeto(pf)
+            helper = wh.WCSHelper.from_header(hdr, psf_file=pf)
+            pw = WCS(ph, naxis=2)
+            for (ra, dec) in ((50.0, -30.0), (51.2, -30.9), (48.7, -29.1), (51.4, -29.2), (48.9, -31.1)):
+                a, b, pa = helper.get_psf_sky2sky(ra, dec)
+                xx, yy = pw.all_world2pix([[ra, dec]], 0)[0]          # 0-based (col, row) of the map
+                cands = set()
+                for r_ in (int(real_np.floor(yy)), int(real_np.ceil(yy)), int(round(yy)) , int(real_np.floor(yy + 1)), int(real_np.ceil(yy + 1))):
+                    for c_ in (int(real_np.floor(xx)), int(real_np.ceil(xx)), int(round(xx)), int(real_np.floor(xx + 1)), int(real_np.ceil(xx + 1))):
+                        r2, c2 = min(max(r_, 0), n2 - 1), min(max(c_, 0), n1 - 1)
+                        cands.add(round(float(cube[0, r2, c2]), 9))
+                if round(float(a), 9) not in cands:
+                    return True, 'psf-map-lookup', 'psf map of shape (3, %d, %d): position (%.1f, %.1f) falls on map pixel (row %.2f, col %.2f) but the psf returned (a=%.6f) is stored elsewhere' % (n2, n1, ra, dec, yy, xx, a)
+        return False, None, None
+    except Exception as e:
+        return True, 'raises-%s' % type(e).__name__, repr(e)[:300]
+    finally:
+        shutil.rmtree(d, ignore_errors=True)
+
+
 def two_images_oracle():
     """two real helpers with identical CRPIX/CDELT/beam but different pointing centres, used alternately in one process"""
     from astropy.io import fits
@@ -458,6 +544,21 @@ def run(rep):
         rep.stats(st)
         handle(rep, res, 'K-vectors')
     rep.end_kernel()
+    rep.kernel('K-psfmap', functions=[F + ':WCSHelper.get_psf_sky2sky'], bounds='psf maps of any shape (planes, 1..4096, 1..4096), any position of the map pixel (symbolic reals)',
+               stubs=['psf map -> index recorder of symbolic shape', 'psf_sky2pix -> arbitrary map pixel'])
+    st, res = explore(h_psfmap(wh))
+    rep.stats(st)
+    for r in res:
+        for ob in r['obligations']:
+            rep.count(ob['result'], ob['name'])
+            if ob['result'] == 'sat':
+                bad, cls, detail = psfmap_oracle()
+                rep.finding('C16/K-psfmap/%s' % (cls or ob['name'].split(':')[-1]), dict(psfmap=True), detail or ob['name'], reproduced=bad)
+    bad, cls, detail = psfmap_oracle()
+    rep.validated_runs(10)
+    if bad:
+        rep.finding('C16/K-psfmap/%s' % cls, dict(psfmap=True), detail)
+    rep.end_kernel()
     bad, cls, detail = two_images_oracle()
     rep.validated_runs(1)
     if bad:
@@ -481,6 +582,9 @@ def handle(rep, res, kname, two=False):
 
 
 def replay(w):
+    if w['witness'].get('psfmap'):
+        bad, cls, detail = psfmap_oracle()
+        return bad, '%s: %s' % (cls, detail)
     if w['witness'].get('two'):
         bad, cls, detail = two_images_oracle()
         return bad, '%s: %s' % (cls, detail)
